@@ -89,7 +89,7 @@ type SCplx complex64
 // which sources can be given a leaf of this kind at all (the others are still run: they must not panic)
 func envSupports(kind string) bool {
 	switch kind {
-	case "time", "durs", "structs", "pdurs", "ip", "uptr", "nkset", "nkmss", "dkmap":
+	case "time", "durs", "structs", "pdurs", "ip", "uptr", "nkset", "nkmss", "dkmap", "estructs":
 		return false // (uintptr: the text parser has no such kind; the variable is still supplied, it must not panic)
 	}
 	return true
@@ -97,7 +97,7 @@ func envSupports(kind string) bool {
 
 func flagSupports(kind string) bool {
 	switch kind {
-	case "durs", "structs", "nstrs", "nmap", "lnamed", "mnamed", "knamed", "pdurs", "nkset", "nkmss", "dkmap":
+	case "durs", "structs", "nstrs", "nmap", "lnamed", "mnamed", "knamed", "pdurs", "nkset", "nkmss", "dkmap", "estructs":
 		return false // no flag is registered for such a leaf
 	}
 	return true
@@ -105,7 +105,7 @@ func flagSupports(kind string) bool {
 
 func docSupports(kind string) bool {
 	switch kind {
-	case "named", "c64", "knamed", "ncplx", "nkset", "nkmss", "dkmap":
+	case "named", "c64", "knamed", "ncplx", "nkset", "nkmss", "dkmap", "estructs":
 		return false // not expressible alike in all four formats
 	}
 	return true
@@ -116,6 +116,15 @@ type SItem struct {
 	N int       `dials:"n"`
 	u int       // skipped fields are legal inside element structs too (here: after an exported one)
 	W time.Time `dials:"w"` // a text-unmarshalable struct held by value inside a slice element (never pointerified)
+}
+
+// SEItem / SEmb: element type of the kind "estructs" (slice elements are not pointerified: E stays a plain int)
+type SEmb struct {
+	E int `dials:"e"`
+}
+type SEItem struct {
+	SEmb
+	N int `dials:"n"`
 }
 
 // a flag given twice, each occurrence with a part of the value: the parts accumulate
@@ -230,6 +239,8 @@ func kindType(k string) reflect.Type {
 		return reflect.TypeOf(map[string]SCount(nil))
 	case "knamed":
 		return reflect.TypeOf(map[SName]string(nil))
+	case "estructs": // a slice whose element struct embeds a struct with a plain (never pointerified) field
+		return reflect.TypeOf([]SEItem(nil))
 	case "dkmap": // a map keyed by a type that decoders substitute (durations), with values that are not substituted
 		return reflect.TypeOf(map[time.Duration]string(nil))
 	case "nkset":
@@ -364,6 +375,8 @@ func leafValue(kind string, id int) (reflect.Value, string, interface{}) {
 		return reflect.ValueOf(map[string]SCount{fmt.Sprintf("k%d", id): SCount(id)}), fmt.Sprintf(`"k%d":%d`, id, id), map[string]interface{}{fmt.Sprintf("k%d", id): id}
 	case "knamed":
 		return reflect.ValueOf(map[SName]string{SName(fmt.Sprintf("k%d", id)): "v"}), fmt.Sprintf(`"k%d":"v"`, id), map[string]interface{}{fmt.Sprintf("k%d", id): "v"}
+	case "estructs":
+		return reflect.ValueOf([]SEItem{{SEmb: SEmb{E: id}, N: id + 1}}), "", []interface{}{map[string]interface{}{"e": id, "n": id + 1}}
 	case "dkmap":
 		return reflect.ValueOf(map[time.Duration]string{time.Duration(id) * time.Second: "v"}), "", map[string]interface{}{fmt.Sprintf("%ds", id): "v"}
 	case "nkset": // sets / string-slice maps keyed by a user-defined string type
@@ -1329,6 +1342,12 @@ func fillTranslated(v reflect.Value) int {
 			}
 		case reflect.Slice:
 			f.Set(reflect.MakeSlice(f.Type(), 0, 1))
+			if et := f.Type().Elem(); et.Kind() == reflect.Struct && et != reflect.TypeOf(time.Time{}) {
+				// one element, filled the same way (its fields are not pointerified)
+				ev := reflect.New(et).Elem()
+				fillPlain(ev)
+				f.Set(reflect.Append(f, ev))
+			}
 			n++
 		case reflect.Map:
 			f.Set(reflect.MakeMap(f.Type()))
@@ -1336,6 +1355,26 @@ func fillTranslated(v reflect.Value) int {
 		}
 	}
 	return n
+}
+
+// fillPlain sets the settable scalar fields of a struct value that was not pointerified (a slice element)
+func fillPlain(v reflect.Value) {
+	for i := 0; i < v.NumField(); i++ {
+		f := v.Field(i)
+		if !f.CanSet() {
+			continue
+		}
+		switch f.Kind() {
+		case reflect.Int, reflect.Int8, reflect.Int16, reflect.Int32, reflect.Int64:
+			f.SetInt(1)
+		case reflect.String:
+			f.SetString("x")
+		case reflect.Struct:
+			if f.Type() != reflect.TypeOf(time.Time{}) {
+				fillPlain(f)
+			}
+		}
+	}
 }
 
 // countSet: leaves of the case that are set in a value of the original (pointerified) type
